@@ -12,7 +12,7 @@ RULE = ('trees with every token kind (null/true/false, %d / %1.15g / %1.17g numb
 ASSUMPTIONS = ['C locale (decimal point)', 'hand-written transliteration validated by this differential run',
                'glibc printf/scanf agree with the reference conversions of LibcPrint.v (checked on every number in the run)',
                'python % formatting is correctly rounded (used by the verdict renderer)']
-TRUSTED_EXTRA = ['libc contract LibcPrintSpec (outputs of %d / %1.15g / %1.17g are zero-free and at most 25 bytes): hypothesis of the theorems, validated by execution']
+TRUSTED_EXTRA = ['libc contract LibcPrintSpec (outputs of %d / %1.15g / %1.17g are zero-free and at most 25 bytes): hypothesis of the theorems; proved for the reference library (Properties_C05_Ref.v) and validated against glibc by execution']
 
 def corpus(ctx):
     cs = load_corpus(ctx['verif'], 'C09')
